@@ -250,7 +250,7 @@ theorem sub_sub (e : Epoch) (x : ℚ) (h : 0 ≤ e.jde - x) :
 
 /-- "right-hand and in-place forms agree": `x + e`, `e += x` give the value of `e + x`; `e -= x`
     gives the value of `e - x` (for every operand, including the ill-typed ones: same exception). -/
-theorem radd_iadd_isub_agree (e : Epoch) (b : Operand) :
+theorem radd_iadd_isub_agree (e : Epoch) (b : EpOperand) :
     Epoch.radd e b = Epoch.add e b ∧ Epoch.iadd e b = Epoch.add e b ∧
       (∀ x, b = .num x → Epoch.sub e b = (Epoch.isub e b).map SubRes.epoch) := by
   refine ⟨?_, ?_, ?_⟩
@@ -293,7 +293,7 @@ theorem eq_iff (e₁ e₂ : Epoch) (x : ℚ) :
   simp [Epoch.eq, plt, habs, htol]
 
 /-- `!=` is the negation of `==`. -/
-theorem ne_iff (e₁ : Epoch) (b : Operand) (r : Bool) (h : Epoch.eq e₁ b = .ok r) : Epoch.ne e₁ b = .ok (!r) := by
+theorem ne_iff (e₁ : Epoch) (b : EpOperand) (r : Bool) (h : Epoch.eq e₁ b = .ok r) : Epoch.ne e₁ b = .ok (!r) := by
   unfold Epoch.ne; rw [h]
 
 /-- "== orders Epochs as their JDE values", the part that holds: equal JDEs compare equal, and JDEs at
